@@ -91,6 +91,9 @@ def compare(rec, sub, case, r, exp, expdims):
 
 
 # ---------------------------------------------------------------- part (a)
+AXSPELL = ("X", ["X"], ("X",))  # a single axis may be given as str, list or tuple
+
+
 def part_a(rec, li, n, seed, only=None):
     layout = S.LAYOUTS[li]
     for fr, to in S.SHIFTS:
@@ -126,7 +129,7 @@ def part_a(rec, li, n, seed, only=None):
                             kw["to"] = to
                         rec.case(("a", li, n, fr, to, rule, fv, supply, op, omit), (fr, to) in PADS or n >= 3, sample=case)
                         try:
-                            r = getattr(g, op)(da, "X", **kw)
+                            r = getattr(g, op)(da, AXSPELL[(li + n + len(op)) % 3], **kw)
                             if not np.array_equal(da.values, base):
                                 rec.violation("single-axis", "input-array-modified", case, base, da.values)
                                 continue
